@@ -706,3 +706,4 @@ META = {
 META['explanation'] += ' ' + 'Further: load_save restores verbatim; every loaded structure is seeded unconditionally; the loaders never write files or (un)pickle state.'
 
 META['explanation'] += ' ' + 'Round 13: the flags written to the save file come from keys the loader really records; the save made on exhaustion follows the position reset.'
+META['explanation'] += ' ' + 'Round 14: is_parent_around and the restore candidate test agree on the boundary (the item popped at the save is pending).'
